@@ -25,6 +25,7 @@ import (
 type Program struct {
 	Name     string // package name
 	SpecText string
+	Debug    bool // generate with Params.Debug (the -debug flag)
 	Spec     *spec.Spec
 	GenErr   string   // golang.Generate failed
 	BuildErr []string // compiler / vet diagnostics for this package
@@ -67,7 +68,7 @@ func Emit(programs []*Program) (*Batch, error) {
 			}()
 			s := *p.Spec
 			s.Name = p.Name
-			if err := golang.Generate(ui.NewNop(), &golang.Params{Path: dir, Spec: &s}); err != nil {
+			if err := golang.Generate(ui.NewNop(), &golang.Params{Debug: p.Debug, Path: dir, Spec: &s}); err != nil {
 				p.GenErr = err.Error()
 			}
 		}()
